@@ -23,13 +23,13 @@ def _table():
     return proto_table()
 
 
-def sized_msg(rng: random.Random, target: int) -> list:
+def sized_msg(rng: random.Random, target: int, which: tuple | None = None) -> list:
     """A client message whose serialized payload is exactly `target` bytes (when reachable)."""
     from ..device import build_msg
     from ..env import lib
 
     pb = lib().pb
-    name, field, is_bytes = pick(rng, BIG)
+    name, field, is_bytes = which or pick(rng, BIG)
     if target < 4:
         return [name, {}] if target == 0 else ["SwitchCommandRequest", {"key": 1, "state": True}]
     seed = rng.getrandbits(20)
@@ -54,10 +54,23 @@ def expected_frames(msgs: list) -> list[tuple[int, bytes]]:
     return [(t.by_name[n], build_msg(pb, n, f).SerializeToString()) for n, f in msgs]
 
 
+NOISE_MAX_PAYLOAD = 65535 - 4 - 16  # a Noise frame carries a 16-bit length: 4 header bytes + payload + 16 tag bytes
+
+
 def wire_oracle(ix: Index, scn: dict) -> list[Violation]:
     out: list[Violation] = []
     t = _table()
     noise = scn["device"].get("transport") == "noise"
+    if noise:
+        # a message the Noise framing cannot carry: the only conformant outcomes are a refusal that writes nothing of the batch
+        # or - none exists - a decodable stream; accepting it means a frame with a wrapped length field goes out and the
+        # responder loses the frame boundaries for good
+        for op in ix.ops:
+            if op.do == "send" and op.s1 is not None and any(len(p) > NOISE_MAX_PAYLOAD for _t, p in expected_frames([m for m in op.args["msgs"] if m[0] in t.by_name])):
+                fd_writes = [seq for lst in ix.tr_writes.values() for seq, *_ in lst if op.s0 < seq < op.s1]
+                if op.ok or fd_writes:
+                    out.append(Violation("oversize-accepted", "noise", f"{op.actor}[{op.i}] send with a payload above {NOISE_MAX_PAYLOAD} bytes on an encrypted session was {'accepted' if op.ok else 'partly written'} ({len(fd_writes)} write(s))"))
+                    return out
     for ev in ix.h:
         if ev[3] == "dev_wire_error":
             out.append(Violation("undecodable-write", "noise" if noise else "plaintext", f"the independent strict decoder rejected the client's byte stream: {ev[4]['err']}"))
@@ -83,13 +96,28 @@ def wire_oracle(ix: Index, scn: dict) -> list[Violation]:
             dec = wire.PlainDecoder()
             odec = wire.NoiseOuterDecoder()
             first = True
+            if not noise:
+                # what the device decoded is a prefix of what the library handed over, write by write: a buffer that is
+                # reused or changed after transport.write() returned (the transport may still hold it, uncopied, while
+                # the peer is slow) shows up here and nowhere else
+                handed: list = []
+                d2 = wire.PlainDecoder()
+                try:
+                    for _seq, data, _turn, _tt in writes:
+                        handed += d2.feed(data)
+                except wire.WireError:
+                    handed = []
+                if handed and dev_rx != handed[: len(dev_rx)]:
+                    k = next(j for j, (a, b) in enumerate(zip(dev_rx, handed)) if a != b)
+                    out.append(Violation("received-differs-from-written", "plaintext", f"frame #{k} decoded by the device is {(dev_rx[k][0], dev_rx[k][1][:16])} but the library wrote {(handed[k][0], handed[k][1][:16])} at that position"))
+                    return out
             for i, (seq, data, turn, tt) in enumerate(writes):
                 op = batch_of.get(i)
                 if op is not None:
                     if op.do == "send":
                         want = expected_frames(op.args["msgs"])
                     else:
-                        want = [(p["type"], gen_bytes(p["gen"][0], p["gen"][1]) if "gen" in p else bytes.fromhex(p.get("payload_hex", ""))) for p in op.args["packets"]]
+                        want = [(p["type"], gen_bytes(p["gen"][0], p["gen"][1]) if "gen" in p else bytes.fromhex(p.get("payload_hex", ""))) for p in op.args["packets"]] * int(op.args.get("repeat", 1))
                 else:
                     want = None
                 if not noise:
@@ -145,7 +173,20 @@ def gen_session_writes(rng: random.Random) -> dict:
         for _ in range(rng.randint(1, 6)):
             msgs = []
             for _ in range(pick(rng, [1, 1, 2, 3, 8, 20])):
-                if rng.random() < 0.35:
+                if not noise and rng.random() < 0.05:
+                    # plaintext has no 16-bit length field: payloads beyond 64 KiB, each followed by messages of the same
+                    # type whose lengths alias it modulo 2^16 / 2^14 / 2^7 (anything keyed or cached by a truncated
+                    # length or by packed (type, length) bits gives itself away on the next frame)
+                    which = pick(rng, BIG[:2])
+                    big = pick(rng, [65535, 65536, 65537, 65536 + rng.randint(4, 300), 131072 + rng.randint(4, 300), 2097152 + rng.randint(0, 9)])
+                    msgs.append(sized_msg(rng, big, which))
+                    for m in rng.sample([65536, 16384, 128], rng.randint(1, 3)):
+                        if big % m >= 4 and big >= m:
+                            msgs.append(sized_msg(rng, big - (big // m) * m if rng.random() < 0.5 else big - m, which))
+                elif noise and rng.random() < 0.01:
+                    # beyond what a Noise frame can carry (16-bit length)
+                    msgs.append(sized_msg(rng, pick(rng, [65516, 65517, 65536, 70000])))
+                elif rng.random() < 0.35:
                     target = pick(rng, BOUNDARY) + pick(rng, [0, 0, 0, -1, 1])
                     if noise:
                         target = min(target, 65515)
@@ -174,11 +215,20 @@ def gen_session_writes(rng: random.Random) -> dict:
         # a slow peer: the socket accepts only part of a write / nothing for a while, the transport buffers (and, above its
         # high-water mark, tells the protocol to pause) - what the library hands over and in which order must not change
         for _ in range(rng.randint(1, 3)):
-            t_b = 0.3 + rng.random() * 4
+            at: dict = {"t": 0.3 + rng.random() * 4}
             if rng.random() < 0.5:
-                events.append({"at": {"t": t_b}, "do": "fault", "kind": "tx_block", "d": pick(rng, [0.01, 0.2, 1.0])})
+                # ... starting right at one of a writer's sends, with the sends that follow close behind: several batches
+                # are handed to the transport while it still holds (part of) an earlier one
+                w = actors[rng.randint(1, len(actors) - 1)]
+                n_send = sum(1 for st in w["steps"] if st["do"] == "send")
+                at = {"on": "op_start", "match": {"actor": w["id"], "do": "send"}, "nth": rng.randint(1, n_send)}
+                for st in w["steps"]:
+                    if st["do"] == "sleep":
+                        st["d"] = pick(rng, [0.0, 0.0, 0.01])
+            if rng.random() < 0.5:
+                events.append({"at": at, "do": "fault", "kind": "tx_block", "d": pick(rng, [0.01, 0.2, 1.0]), "phase": "pre"})
             else:
-                events.append({"at": {"t": t_b}, "do": "fault", "kind": "tx_short", "n": pick(rng, [1, 3, 100, 4096])})
+                events.append({"at": at, "do": "fault", "kind": "tx_short", "n": pick(rng, [1, 3, 100, 4096]), "phase": "pre"})
     return {
         "family": "session",
         "knobs": gen_knobs(rng),
@@ -191,9 +241,10 @@ def gen_session_writes(rng: random.Random) -> dict:
     }
 
 
-def gen_helper_writes(rng: random.Random) -> dict:
+def gen_helper_writes(rng: random.Random, noise: bool | None = None) -> dict:
     t = _table()
-    noise = rng.random() < 0.5
+    coin = rng.random() < 0.5
+    noise = coin if noise is None else noise
     ids = list(t.by_id)
     steps: list[dict] = []
     dev: dict = {}
@@ -221,7 +272,14 @@ class C02(CheckBase):
     thorough_cases = 32000
 
     def cases(self, rng: random.Random, tier: str, idx: int) -> Iterable[dict]:
-        if idx % 3 == 0:
+        if idx % 400 == 9:
+            # a long encrypted session: more frames than a 16-bit counter holds (the outbound nonce is a 64-bit counter)
+            scn = gen_helper_writes(rng, noise=True)
+            att = next(st for st in scn["actors"][0]["steps"] if st["do"] == "fh.attach")
+            scn["actors"][0]["steps"] = [att] + [{"do": "fh.write", "packets": [{"type": pick(rng, [7, 8, 33]), "gen": [pick(rng, [0, 1, 2]), k]}], "repeat": 7400} for k in range(9)]
+            scn["max_turns"] = 400000
+            yield scn
+        elif idx % 3 == 0:
             yield gen_helper_writes(rng)
         else:
             yield gen_session_writes(rng)
